@@ -402,7 +402,7 @@ def run_c19(tier, seed, bins, drv):
         corr["disagreements"].append({"kind": "rust-backend-build-failed", "detail": log[-800:]})
         return corr, srch
     rbins = {"debug": rbin}
-    for gp in ("C01", "C03", "C07", "C08", "C09", "C11", "C13", "C14", "C15"):
+    for gp in ("C01", "C03", "C07", "C08", "C09", "C10", "C11", "C13", "C14", "C15", "C16", "C20"):
         keep_r, keep_b = {}, {}
         c1 = run_correspondence(gp, "quick", seed, rbins, drv, keep_impl=keep_r)       # model vs rust build
         c2 = run_correspondence(gp, "quick", seed, {"debug": bins["debug"]}, drv, keep_impl=keep_b)
